@@ -56,7 +56,20 @@ func newTrace(name string) *traceWriter {
 	return &traceWriter{f: f, w: bufio.NewWriterSize(f, 1<<20)}
 }
 
+// theWatch, when a driver started one with watchDriver, is ticked by every emitted trace row: a driver whose code under
+// test spins or blocks forever stops emitting, and the watchdog turns that into an observation (hang.json, exit 7).
+var theWatch *hangWatch
+
+func watchDriver(name string) func() {
+	h := startHangWatch(name, time.Duration(envInt("VERIF_HANG_S", 120))*time.Second)
+	theWatch = h
+	return func() { theWatch = nil; close(h.stop) }
+}
+
 func (t *traceWriter) Emit(v any) {
+	if theWatch != nil {
+		theWatch.tick(nil)
+	}
 	b, err := json.Marshal(v)
 	if err != nil {
 		panic(err)
